@@ -211,6 +211,11 @@ def run(ctx):
                   'reconcile_path is not mirror-symmetric or deletes without a base at %s: %s vs swapped %s' % (vdesc(v), r1, r2), where)
     ctx.attempt(same_rule, ctx, F)
     ctx.attempt(reconcile_rule, ctx, F)
+    # "with every base ignored when the base is untrusted": the base value handed to reconcile_path is None, or exists only behind
+    # trust_base == true - in every body of reconcile, whatever shape the walk has (= C07.R4, run under this property)
+    ctx.rule('C18.R5', 'reconcile: the base value handed to reconcile_path is None or exists only behind trust_base == true (= C07.R4)', floor=1)
+    from rules import C07
+    ctx.attempt(C07.r4, RidProxy(ctx, {'C07.R4': 'C18.R5'}), F)
     ctx.attempt(lean_crosscheck, ctx, vals, table)
 
 
